@@ -280,7 +280,7 @@ INJECTIONS = ["unknown-field", "leaf-with-selection", "composite-without-selecti
               "dup-field-args-reordered", "dup-field-args-reordered-conflict",
               "input-object-valid", "duplicate-input-key", "unknown-input-field", "missing-required-input-field", "input-field-wrong-type",
               "nullable-var-required-input-field", "nullable-var-defaulted-input-field", "nested-duplicate-input-key", "input-var-default-object",
-              "subscription-two-fields", "subscription-fragment-two-fields", "subscription-same-key-twice", "subscription-inline-one-field", "mutation-valid", "cycle-behind-shared-fragment", "shared-fragment-no-cycle",
+              "subscription-two-fields", "subscription-fragment-two-fields", "subscription-same-key-twice", "subscription-inline-one-field", "mutation-valid", "cycle-behind-shared-fragment", "shared-fragment-no-cycle", "cycle-below-acyclic-fragment", "cycle-below-acyclic-fragment-defined-last",
               "cross-fragment-conflict-11", "cross-fragment-conflict-12", "cross-fragment-conflict-21", "cross-fragment-conflict-22", "cross-fragment-compatible",
               "two-operations-shared-fragment-variable-types",
               "abstract-no-overlap", "abstract-partial-overlap", "abstract-in-abstract-no-overlap",
@@ -558,6 +558,14 @@ def _inject(doc, label, rng):
         doc["defs"] += [fr("CsA", [spread("CsB"), spread("CsC"), spread("CsD")]), fr("CsB", [spread("CsC")]), fr("CsC", [field("a")]),
                         fr("CsD", [field("o", "", [], [spread("CsA")])] if label.startswith("cycle") else [field("s")])]
         op["sel"].append(field("o", "cs", [], [spread("CsA")]))
+    elif label.startswith("cycle-below-acyclic-fragment"):
+        # the operation only reaches the cycle CyB <-> CyC through CyA, which is NOT on it (defined before / after the cycle members)
+        def fr(n, sel):
+            return {"k": "frag", "name": n, "op": "", "vars": [], "on": "Obj", "sel": sel}
+        fa = fr("CyA", [field("a"), spread("CyB")])
+        cyc = [fr("CyB", [field("o", "", [], [spread("CyC")])]), fr("CyC", [field("o", "", [], [spread("CyB")])])]
+        doc["defs"] += (cyc + [fa]) if label.endswith("last") else ([fa] + cyc)
+        op["sel"].append(field("o", "cy", [], [spread("CyA")]))
     elif label.startswith("cross-fragment-"):
         # o { ...Xf1 ...Xf2 }  o { ...Xg1 ...Xg2 }: the only conflict lies between fragment i of the first and fragment j of the second field
         i, j = (int(label[-2]), int(label[-1])) if label[-1].isdigit() else (0, 0)
